@@ -23,6 +23,8 @@ type c14Params struct {
 	E      int  `json:"e"`
 	Offset int  `json:"tube_offset"`
 	Self   bool `json:"self_comparison"`
+	// the query is said to be a complemented strand: in a comparison of two different sequences that changes nothing
+	Complement bool `json:"complement_flag,omitempty"`
 }
 
 type c14Match struct{ T0, Q0, Mism int }
@@ -48,7 +50,7 @@ func c14Filter(target, query []byte, p c14Params, dir string, prior []byte) ([]f
 	f := filter.New(ki, &filter.Params{WordSize: p.K, MinMatch: p.N, MaxError: p.E, TubeOffset: p.Offset})
 	if prior != nil && !p.Self {
 		ps := linear.NewSeq("prior", alphabet.BytesToLetters(append([]byte(nil), prior...)), alphabet.DNA)
-		if err := f.Filter(ps, false, false, m); err != nil {
+		if err := f.Filter(ps, false, p.Complement, m); err != nil {
 			return nil, fmt.Errorf("Filter (first use): %v", err)
 		}
 		for {
@@ -61,7 +63,7 @@ func c14Filter(target, query []byte, p c14Params, dir string, prior []byte) ([]f
 			return nil, fmt.Errorf("Clear between uses: %v", err)
 		}
 	}
-	if err := f.Filter(qs, p.Self, false, m); err != nil {
+	if err := f.Filter(qs, p.Self, p.Complement, m); err != nil {
 		return nil, fmt.Errorf("Filter: %v", err)
 	}
 	var hits []filter.Hit
@@ -203,11 +205,15 @@ func c14Case(r *obs.Run, i int) {
 		p.N = minN + []int{0, 1, 3, 8}[rng.Intn(4)]
 		p.Offset = p.E + 1 + rng.Intn(12)
 		tl = maxInt(p.N+10, 80+rng.Intn(220))
-		tl += ((p.Offset-1-rng.Intn(p.E))-(tl-1)%p.Offset + p.Offset) % p.Offset // (tl-1)%offset in [offset-e, offset-1]
+		tl += ((p.Offset - 1 - rng.Intn(p.E)) - (tl-1)%p.Offset + p.Offset) % p.Offset // (tl-1)%offset in [offset-e, offset-1]
 		ql = minInt(maxLen, tl*(4+rng.Intn(6)))
 	}
 	T := c14Rand(rng, tl)
 	Q := c14Rand(rng, ql)
+	if !p.Self && rng.Intn(3) == 0 {
+		p.Complement = true
+		r.Count("non_self_pairs_with_the_complement_flag", 1)
+	}
 	if stress {
 		r.Count("ring_stress_pairs", 1)
 	}
@@ -219,7 +225,7 @@ func c14Case(r *obs.Run, i int) {
 		return
 	}
 	// planted windows; residues swept by the case index
-	rho := idx % p.Offset             // diagonal residue
+	rho := idx % p.Offset              // diagonal residue
 	tau := (idx / p.Offset) % p.Offset // query residue relative to the tick
 	type plant struct{ T0, Q0, Mism int }
 	var plants []plant
